@@ -30,12 +30,12 @@ ASSUMPTIONS = (
 )
 
 
-def gen_script(ch):
+def gen_script(ch, deep=False):
     ops = []
     if ch.draw(6, 'pre_pause') == 5:
         ops.append(('pause', 1 + ch.draw(3, 'k')))
     ops.append(('accept', None, None))
-    n = 1 + ch.draw(9, 'n_ops')
+    n = 1 + ch.draw(15 if deep else 9, 'n_ops')
     sent = 0
     for _ in range(n):
         k = ch.weighted([5, 3, 3, 2, 1, 1, 2], 'op')
@@ -265,8 +265,9 @@ def check_order(ctx, h):
 def run(ctx):
     ch = ctx.ch
     cfg = gen_cfg(ch)
-    client = gen_client(ch, max_msgs=6)
-    script = gen_script(ch)
+    deep = ctx.tier == 'thorough'      # deeper bounds in the thorough tier
+    client = gen_client(ch, max_msgs=10 if deep else 6)
+    script = gen_script(ch, deep)
     faulty = ch.draw(10, 'faulty') >= 8
     if faulty:
         cfg['fail_send_at'] = [ch.draw(6, 'fail_at')]
